@@ -573,7 +573,7 @@ func genC15(tier string) []Scenario {
 	base := baseValues()
 	vals := append(append([]any(nil), base...), derivedValues(base)...)
 	if tier == "thorough" {
-		vals = append(vals, derivedValues(derivedValues(base)[:400])...)
+		vals = append(vals, derivedValues(derivedValues(base))...) // depth 3, complete
 	}
 	var out []Scenario
 	// process-wide state (caches keyed by something coarser than the type): distinct types that
